@@ -51,10 +51,6 @@ func verifyTxRoot(block *types.Block) error {
 
 // verifyTxs verify the Tx list in block body
 func verifyTxs(block *types.Block, txGuard TxGuard, chainId uint16) error {
-	if txGuard.ExistTxs(block.ParentHash(), block.Txs) {
-		log.Error("Consensus verify fail: tx is appeared in parent blocks")
-		return ErrVerifyBlockFailed
-	}
 	// a transaction takes effect at most once: it must not appear twice in the block, on its own or inside a box
 	seen := make(map[common.Hash]struct{}, len(block.Txs))
 	for _, tx := range block.Txs {
@@ -76,6 +72,11 @@ func verifyTxs(block *types.Block, txGuard TxGuard, chainId uint16) error {
 			}
 			seen[hash] = struct{}{}
 		}
+	}
+	// The tx guard decodes box transactions, so it is asked only after every tx body is verified
+	if txGuard.ExistTxs(block.ParentHash(), block.Txs) {
+		log.Error("Consensus verify fail: tx is appeared in parent blocks")
+		return ErrVerifyBlockFailed
 	}
 	return nil
 }
